@@ -935,7 +935,10 @@ class Lvalue(Expr):
             const = self.parent_routine.local_consts.get(self.base_var)
             if const is None:
                 const = self.context.global_consts[self.base_var]
-            return const.type
+            if isinstance(const, Expr):
+                return const.type
+            # (the debugger keeps (type, value) pairs and types the
+            # names of constants through its own routine wrapper)
 
         var_type = self.base_type
 
